@@ -40,6 +40,9 @@ func buildAlign(seed int64) (*Scenario, error) {
 	// the mint address also holds assets that are NOT minted (pFCT) and more of one that is (pUSD):
 	// the burn at 433 takes what is left of the listed assets only
 	b.Tx(301, alice, Xfer(A, FCT, 7*fct+uint64(rng.Intn(100)), MintAddr()))
+	// ... and it holds some of a MINTED asset already before the mint (anyone can send to it): the mint adds the listed
+	// supply on top, it does not top the balance up to it (seeded C15-h)
+	b.Tx(302, alice, Xfer(A, USD, 2*fct+uint64(rng.Intn(50)), MintAddr()))
 	b.Tx(432, bob, Xfer(Bo, FCT, 3*fct, MintAddr()))
 	b.Tx(433, alice, Xfer(A, USD, fct, MintAddr()))
 	b.Dump(143, 144, 145, 287, 288, 289, 431, 432, 433)
